@@ -129,6 +129,8 @@ type PipelineJob struct {
 	sched      *taskctl.Scheduler
 	taskRunner runner.Runner
 	startTimer *time.Timer
+	// cancelRequested is set when cancellation of the started job was requested via CancelJob or a forced shutdown
+	cancelRequested bool
 }
 
 func (j *PipelineJob) isRunning() bool {
@@ -509,8 +511,9 @@ func (r *PipelineRunner) JobCompleted(id uuid.UUID, err error) {
 	job.End = &now
 	job.LastError = err
 
-	// Set canceled flag on the job if a task was canceled through the context
-	if errors.Is(err, context.Canceled) {
+	// Set canceled flag on the job if a task was canceled through the context, or if the job was canceled while
+	// none of its tasks was running (e.g. in between two tasks), in which case the remaining tasks were not run
+	if errors.Is(err, context.Canceled) || job.cancelRequested {
 		job.Canceled = true
 	}
 
@@ -884,8 +887,10 @@ func (r *PipelineRunner) Shutdown(ctx context.Context) error {
 			verifhook.Yield("Shutdown.force", r)
 			r.mx.Lock()
 
-			for jobID := range r.jobsByID {
-				_ = r.cancelJobInternal(jobID)
+			for jobID, job := range r.jobsByID {
+				if r.cancelJobInternal(jobID) == nil {
+					job.cancelRequested = true
+				}
 			}
 			r.mx.Unlock()
 
@@ -963,7 +968,11 @@ func (r *PipelineRunner) CancelJob(id uuid.UUID) error {
 	r.mx.Lock()
 	defer r.mx.Unlock()
 
-	return r.cancelJobInternal(id)
+	err := r.cancelJobInternal(id)
+	if err == nil {
+		r.jobsByID[id].cancelRequested = true
+	}
+	return err
 }
 
 func (r *PipelineRunner) cancelJobInternal(id uuid.UUID) error {
